@@ -21,3 +21,21 @@ extern "C" void h_getvalue_ptrdiff() {
     VASSERT(Converter<SafeInt>::getValue((ptrdiff_t)x).value() == x, "ptrdiff_t constant converted exactly");
     VWITNESS("ptrdiff");
 }
+
+// constants beyond the word size: a + b with arbitrary 64-bit a, b reaches every magnitude up to 2^64 (built with the real FastRational
+// addition on the GMP model). A value that does not fit ptrdiff_t must be REJECTED, never truncated.
+extern "C" void h_getvalue_beyond() {
+    int64_t a = nondet_i64(), b = nondet_i64();
+    VASSUME(a != INT64_MIN && b != INT64_MIN);      // the GMP model's product range check (|operand| < 2^63) excludes exactly this value
+    FastRational va, vb; vfr_make_int(&va, (uint64_t)a); vfr_make_int(&vb, (uint64_t)b);
+    FastRational v = va + vb;
+    __int128 s = (__int128)a + (__int128)b;
+    bool fits = s >= -((__int128)1 << 63) && s < ((__int128)1 << 63);
+    bool rejected = false; ptrdiff_t r = 0;
+    try { r = Converter<SafeInt>::getValue(v).value(); } catch (std::overflow_error const &) { rejected = true; }
+    if (fits) { VASSERT(!rejected && (__int128)r == s, "a constant that fits the solver's integer type is converted to exactly its value"); }
+    else { VASSERT(rejected, "a constant beyond the solver's integer type is rejected, never truncated"); }
+    if (!fits && s > 0 && s < ((__int128)1 << 64)) { VWITNESS("magnitude-between-2^63-and-2^64-rejected"); }
+    if (!fits && s < 0) { VWITNESS("negative-beyond-word-rejected"); }
+    if (fits) { VWITNESS("sum-fits"); }
+}
